@@ -1,5 +1,6 @@
 """C03 -- direct enum parse == lexical parse + fold (vocabulary and keyword->constructor clauses)."""
 import hir, maps, tables
+from facts import AnchorMissing
 from maps import tree_s, root_variant
 
 LEVEL = "other"
@@ -98,6 +99,16 @@ def run(ctx):
     # a bare term that ends in an identifier-only stamp/truth keyword (Han) must reach the term segmenter whole (D11)
     import suffix
     suffix.rule_S_SUFFIX(ctx, T)
+    # numeric items: both pipelines must turn n numbers into the same constructor with the numbers in order -- the enum parser through
+    # `match num` (A-COUNT), the fold through the try_from_floats ladders (V-CTOR) (seed c03-c: new_double(p, q) in the enum parser only)
+    import c01, c13
+    c01.a_count_parser(ctx)
+    ctx.rule("V-CTOR", "fold side of the numeric items: Truth/Budget::try_from_floats returns the k-component constructor for k items, in order")
+    for tname, (adtp, mod) in c13.TYPES.items():
+        adt = f.adts.get(adtp)
+        if adt is None:
+            raise AnchorMissing(adtp)
+        c13.v_ladder(ctx, tname, adtp, max(len(v["fields"]) for v in adt["variants"]))
     ctx.undecided = ["equality of the two pipelines' values on every string (nesting, leniency on malformed input)"]
     ctx.assumptions = ["rustc HIR/name resolution is correct", "nar_dev_utils 0.42.3 dictionary semantics as read from its source"]
     ctx.trusted = ["rustc nightly front end (HIR, typeck)", "mirfacts driver", "python rule layer"]
